@@ -793,3 +793,85 @@ VARIANTS += [
  dict(name='result-in-new-local-and-read', file=N, expect='silent', find=TAIL,
       replace='\tmerged := desc\n\tmerged.Annotations = annotations\n\tlogger.Debugf("merged metadata into %v", merged.Digest)\n\treturn merged, nil\n}\n'),
 ]
+
+# class "what success stands for" (guard campaign): the errors of Signer.Sign, of the annotation generator and of
+# PushSignature, and of the fallible calls the generated annotations are computed from, gate the push / the success exit
+SIGN_GUARD = 'signOpts.SignerSignOptions)\n\tif err != nil {\n\t\treturn ocispec.Descriptor{}, ocispec.Descriptor{}, err\n\t}'
+GEN_GUARD = 'pluginAnnotations)\n\tif err != nil {\n\t\treturn ocispec.Descriptor{}, ocispec.Descriptor{}, err\n\t}'
+PUSH_GUARD = 'artifactManifestDesc, annotations)\n\tif err != nil {\n'
+PUSH_TAIL = '''	if err != nil {
+		var referrerError *remote.ReferrersError
+		if errors.As(err, &referrerError) && referrerError.IsReferrersIndexDelete() {
+			// return the descriptors for referrersIndexDelete error as
+			// the signature is successfully pushed to the repository
+			return artifactManifestDesc, sigManifestDesc, err
+		}
+		logger.Error("Failed to push the signature")
+		return ocispec.Descriptor{}, ocispec.Descriptor{}, ErrorPushSignatureFailed{Msg: err.Error()}
+	}
+	return artifactManifestDesc, sigManifestDesc, nil
+'''
+TIME_GUARD = 'envelope.SigningTime(signerInfo)\n\tif err != nil {\n\t\treturn nil, err\n\t}\n'
+MARSHAL_GUARD = 'json.Marshal(thumbprints)\n\tif err != nil {\n'
+FAILED_FN = 'func callFailed(err error) bool {\n\treturn err != nil\n}\n\nfunc validateSignArguments('
+VARIANTS += [
+ # Signer.Sign
+ dict(name='sign-error-guard-disabled', file=N, expect='flagged(gate/push-after-sign)',
+      find=SIGN_GUARD, replace=SIGN_GUARD.replace('if err != nil {', 'if false && (err != nil) {')),
+ dict(name='sign-error-only-without-bytes', file=N, expect='flagged(gate/push-after-sign)',
+      find=SIGN_GUARD, replace=SIGN_GUARD.replace('if err != nil {', 'if len(sig) == 0 && err != nil {')),
+ dict(name='sign-error-logged-only', file=N, expect='flagged(gate/push-after-sign)',
+      find=SIGN_GUARD, replace='signOpts.SignerSignOptions)\n\tif err != nil {\n\t\tlogger.Warn(err)\n\t}'),
+ dict(name='sign-error-switch', file=N, expect='silent',
+      find=SIGN_GUARD, replace='signOpts.SignerSignOptions)\n\tswitch {\n\tcase err != nil:\n\t\treturn ocispec.Descriptor{}, ocispec.Descriptor{}, err\n\t}'),
+ dict(name='sign-error-test-in-helper', expect='silent',
+      edits=[(N, SIGN_GUARD, SIGN_GUARD.replace('if err != nil {', 'if callFailed(err) {')), (N, 'func validateSignArguments(', FAILED_FN)]),
+ # the annotation generator
+ dict(name='generator-error-guard-disabled', file=N, expect='flagged(gate/push-after-annotations)',
+      find=GEN_GUARD, replace=GEN_GUARD.replace('if err != nil {', 'if false && (err != nil) {')),
+ dict(name='generator-error-only-without-plugin-annotations', file=N, expect='flagged(gate/push-after-annotations)',
+      find=GEN_GUARD, replace=GEN_GUARD.replace('if err != nil {', 'if len(pluginAnnotations) == 0 && err != nil {')),
+ dict(name='generator-error-operands-swapped', file=N, expect='silent',
+      find=GEN_GUARD, replace=GEN_GUARD.replace('if err != nil {', 'if nil != err {')),
+ # PushSignature
+ dict(name='push-error-guard-disabled', file=N, expect='flagged(gate/success-after-push)',
+      find=PUSH_GUARD, replace=PUSH_GUARD.replace('if err != nil {', 'if false && (err != nil) {')),
+ dict(name='push-error-only-without-manifest', file=N, expect='flagged(gate/success-after-push)',
+      find=PUSH_GUARD, replace=PUSH_GUARD.replace('if err != nil {', 'if sigManifestDesc.Digest == "" && err != nil {')),
+ dict(name='push-index-delete-reported-as-success-for-any-error', file=N, expect='flagged(gate/success-after-push)',
+      find='\t\t\treturn artifactManifestDesc, sigManifestDesc, err\n\t\t}\n\t\tlogger.Error("Failed to push the signature")\n\t\treturn ocispec.Descriptor{}, ocispec.Descriptor{}, ErrorPushSignatureFailed{Msg: err.Error()}\n',
+      replace='\t\t\treturn artifactManifestDesc, sigManifestDesc, err\n\t\t}\n\t\tlogger.Error("Failed to push the signature")\n\t\treturn artifactManifestDesc, sigManifestDesc, nil\n'),
+ dict(name='push-error-success-first', file=N, expect='silent', find=PUSH_TAIL,
+      replace='''	if err == nil {
+		return artifactManifestDesc, sigManifestDesc, nil
+	}
+	var referrerError *remote.ReferrersError
+	if errors.As(err, &referrerError) && referrerError.IsReferrersIndexDelete() {
+		// the signature is successfully pushed to the repository
+		return artifactManifestDesc, sigManifestDesc, err
+	}
+	logger.Error("Failed to push the signature")
+	return ocispec.Descriptor{}, ocispec.Descriptor{}, ErrorPushSignatureFailed{Msg: err.Error()}
+'''),
+ dict(name='push-error-test-in-helper', expect='silent',
+      edits=[(N, PUSH_GUARD, PUSH_GUARD.replace('if err != nil {', 'if callFailed(err) {')), (N, 'func validateSignArguments(', FAILED_FN)]),
+ # the fallible sources of the generated annotations
+ dict(name='signing-time-error-guard-disabled', file=N, expect='flagged(annotations/fallible-sources)',
+      find=TIME_GUARD, replace=TIME_GUARD.replace('if err != nil {', 'if false && (err != nil) {')),
+ dict(name='signing-time-error-only-for-single-cert', file=N, expect='flagged(annotations/fallible-sources)',
+      find=TIME_GUARD, replace=TIME_GUARD.replace('if err != nil {', 'if len(signerInfo.CertificateChain) < 2 && err != nil {')),
+ dict(name='signing-time-error-switch', file=N, expect='silent',
+      find=TIME_GUARD, replace='envelope.SigningTime(signerInfo)\n\tswitch {\n\tcase err != nil:\n\t\treturn nil, err\n\t}\n'),
+ dict(name='signing-time-success-first', file=N, expect='silent',
+      find=TIME_GUARD + '\tannotations[ocispec.AnnotationCreated] = signingTime.Format(time.RFC3339)\n\treturn annotations, nil\n',
+      replace='envelope.SigningTime(signerInfo)\n\tif err == nil {\n\t\tannotations[ocispec.AnnotationCreated] = signingTime.Format(time.RFC3339)\n\t\treturn annotations, nil\n\t}\n\treturn nil, err\n'),
+ dict(name='thumbprint-marshal-error-guard-disabled', file=N, expect='flagged(annotations/fallible-sources)',
+      find=MARSHAL_GUARD, replace=MARSHAL_GUARD.replace('if err != nil {', 'if false && (err != nil) {')),
+ dict(name='thumbprint-marshal-error-only-for-empty-list', file=N, expect='flagged(annotations/fallible-sources)',
+      find=MARSHAL_GUARD, replace=MARSHAL_GUARD.replace('if err != nil {', 'if len(thumbprints) == 0 && err != nil {')),
+ dict(name='thumbprint-marshal-error-operands-swapped', file=N, expect='silent',
+      find=MARSHAL_GUARD, replace=MARSHAL_GUARD.replace('if err != nil {', 'if nil != err {')),
+ # guards of the campaign that are not clauses of the property: stay silent
+ dict(name='merge-without-empty-metadata-shortcut', file=N, expect='silent',
+      find='\tif len(userMetadata) == 0 {\n\t\treturn desc, nil\n\t}\n\n\t// never write', replace='\t// never write'),
+]
